@@ -15,7 +15,7 @@ func init() {
 			"the sweep hands every unlinked timer to exactly one of {expire callback, re-Add} and expires only on deadline < wheel time, passing that wheel time; DeleteExpired advances the wheel clock before sweeping; maintenance replays the write buffer and the caller's task before it sweeps, with a fresh clock sample; "+
 			"task replay schedules every alive node that has expiration and reads re-schedule (shared with C05.runTask). NOT decided: the bucket/span/shift arithmetic, cascading, and the 1.08 s bound itself.",
 		[]string{"the clock is monotonic between sweeps", "uint64 arithmetic per the Go spec"},
-		ruleC13Clamp, ruleC13NoDrop, ruleC13Span, ruleWheelShape, ruleC13Tables, ruleC13Advance, ruleC13Order, ruleC05RunTask, ruleC05Task, ruleEvict)
+		ruleC13Clamp, ruleC13NoDrop, ruleC13Span, ruleWheelShape, ruleC13Tables, ruleC13Advance, ruleC13FindBucket, ruleC13Order, ruleC05RunTask, ruleC05Task, ruleEvict)
 }
 
 const expPkg = "internal/expiration"
